@@ -2,7 +2,7 @@ import os
 import stat
 import subprocess
 
-from pygopherd import gopherentry
+from pygopherd import GopherExceptions, gopherentry
 from pygopherd.handlers.base import is_real_vfs
 from pygopherd.handlers.file import has_fileno
 from pygopherd.handlers.virtual import Virtual
@@ -17,6 +17,14 @@ class ExecHandler(Virtual):
             and stat.S_ISREG(self.statresult[stat.ST_MODE])
             and (stat.S_IMODE(self.statresult[stat.ST_MODE]) & stat.S_IXOTH)
         )
+
+    def prepare(self):
+        # An environment value cannot hold a NUL: such a search string can't
+        # be handed to the script.  Say so before anything is written.
+        if self.searchrequest and "\0" in self.searchrequest:
+            raise GopherExceptions.FileNotFound(
+                self.selector, "NUL in search string", self.protocol
+            )
 
     def getentry(self):
         entry = gopherentry.GopherEntry(self.getselector(), self.config)
